@@ -27,7 +27,9 @@ pub struct GlideProcessor {
 impl GlideProcessor {
     /// `GlideProcessor::new(sr)` is a new glide processor with sample rate `sr`
     pub fn new(sample_rate_hz: f32) -> Self {
-        let max_fc = sample_rate_hz / 2.0_f32;
+        // the pole of the one-pole lowpass reaches zero at sample_rate/4 and goes negative above that, which makes
+        // the output overshoot and ring (at sample_rate/2 it rings forever), so that is as fast as it can get
+        let max_fc = sample_rate_hz / 4.0_f32;
 
         let coeffs = coeffs(sample_rate_hz.hz(), max_fc.hz());
 
@@ -46,7 +48,7 @@ impl GlideProcessor {
     ///
     /// * `t` - the new value for the glide control time, in `[0.0, 10.0]`
     ///
-    /// Times that would be faster than sample_rate/2 are clamped.
+    /// Times that would be faster than sample_rate/4 are clamped, the output then settles within two samples.
     ///
     /// This function can be somewhat costly, so don't call it more than necessary
     pub fn set_time(&mut self, t: f32) {
